@@ -21,7 +21,7 @@ theorem TokAt.of_kind {w : Str} {q : Nat} {c : Char} {t : Token} (h1 : t.pre = w
   · rcases hk with hk | hk | hk <;> rcases h with h | h <;> (rw [hk] at h; cases h)
 
 section cls
-variable {keys : List Str} {ee m br : Bool} {ex : Option (Str × Bool)} {ps : PState} {s : Str} {q : Nat}
+variable {keys : List Str} {ee m : Bool} {br : Xp} {ex : Option (Str × Bool)} {ps : PState} {s : Str} {q : Nat}
 
 theorem notFollowed_head (hps : PSStd keys ee m ex br ps) {p : Nat} {x : Str} (hd : s.drop p = x)
     (h : notFollowedByAlpha ps s p = true) : headIs isAsciiAlpha x = false := by
